@@ -211,13 +211,13 @@ class SharedMemoryFileBufferedCollection(FileBufferedCollection):
                 # to hold what is being saved, so move the data over in place.
                 contents = type(self)._buffer[self._filename]["contents"]
                 if contents is not self._data:
-                    own_data = self._data
-                    contents.clear()
-                    if isinstance(contents, dict):
-                        contents.update(own_data)
-                    else:
-                        contents.extend(own_data)
+                    # Merge in place rather than moving the nested collections
+                    # over: the ones already in the shared container may have
+                    # been handed out and must stay attached.
+                    own_data = self._to_base()
                     self._data = contents
+                    with self._suspend_sync:
+                        self._update(own_data, _validate=True)
 
                 # Always track all instances pointing to the same data.
 
